@@ -19,7 +19,7 @@ PAL = {
     'eccentricity': [0.0041, 0.01, 0.05, 0.1, 0.3],
     'obliquity': [0.0, 0.01, 0.1, 0.4, 1.0],
     'spin_period': [1.0, 1.769, 2.5, 10.0],
-    'spin_frequency': [2 * math.pi / (86400. * p) for p in (0.9, 1.769, 2.2, 8.0)],
+    'spin_frequency': [2 * math.pi / (86400. * p) for p in (0.9, 1.769, 2.2, 8.0, -3.0, 1.4)],   # incl. retrograde and = an orbital palette value
     'time': [0.0, 100.0, 1000.0, 4600.0],
     'fixed_q': [10.0, 100.0, 1000.0, 5000.0],
     'fixed_dt': [0.001, 1.0, 600.0],
@@ -45,7 +45,7 @@ def gen_value(d: Draw, kind, n, mixed=None):
 def gen_config(d: Draw, prop):
     model = d.weighted([('cpl', 3), ('ctl', 3), ('layered', 4)])
     cfg = {'model': model, 'sync': d.chance(1, 2), 'obliq': d.chance(1, 2), 'trunc': d.pick([2, 4, 6]),
-           'host': d.weighted([('star', 2), ('giant', 2)]), 'N': d.weighted([(0, 4), (3, 2), (5, 1), (-3, 2)])}
+           'host': d.weighted([('star', 2), ('giant', 2)]), 'N': d.weighted([(0, 8), (3, 4), (5, 2), (-3, 4), (1, 1)])}
     if model == 'ctl':
         cfg['ctl_method'] = d.pick(['linear_simple', 'linear_simple_with_q'])
     if model == 'layered':
@@ -100,10 +100,10 @@ def gen_host_orbit_op(d: Draw, cfg):
                 args[kind] = gen_value(d, kind, n)
             else:
                 args[f] = gen_value(d, f, n)
-        return {'op': how, 'args': args, 'target': 'host'}
+        return {'op': how, 'args': args, 'target': 'host', 'sig': d.weighted([('instance', 3), ('name', 1), ('index', 1)])}
     if how == 'o.setter':
         kind = d.pick(SEP_KINDS + ['eccentricity'])
-        return {'op': 'o.setter', 'name': 'set_' + kind, 'sig': d.pick(['instance', 'name']), 'target': 'host',
+        return {'op': 'o.setter', 'name': 'set_' + kind, 'sig': d.pick(['instance', 'name', 'index']), 'target': 'host',
                 'args': {'value': gen_value(d, kind, n)}}
     name, kind = d.pick([('eccentricity', 'eccentricity'), ('semi_major_axis', 'semi_major_axis'),
                          ('orbital_frequency', 'orbital_frequency'), ('orbital_period', 'orbital_period')])
@@ -115,7 +115,7 @@ def gen_set_states(d: Draw, cfg):
     n = cfg['N']
     nb = cfg.get('n_bodies', 1)
     targets = d.shuffled(list(range(nb)))[:d.between(1, nb)]
-    op = {'op': 'o.set_states', 'targets': targets, 'sig': d.pick(['instance', 'name']), 'lists': {}}
+    op = {'op': 'o.set_states', 'targets': targets, 'sig': d.pick(['instance', 'name', 'index']), 'lists': {}}
     kinds = [k for k in ('sep', 'eccentricity') if d.chance(1, 2)] or [d.pick(['sep', 'eccentricity'])]
     for k in kinds:
         if k == 'sep':
@@ -181,10 +181,10 @@ def _gen_op(d: Draw, cfg, prop):
                 args[kind] = gen_value(d, kind, n)
             else:
                 args[f] = gen_value(d, f, n)
-        return {'op': 'o.set_state', 'args': args}
+        return {'op': 'o.set_state', 'args': args, 'sig': d.weighted([('instance', 3), ('name', 1), ('index', 1)])}
     if k == 'o.setter':
         kind = d.pick(SEP_KINDS + ['eccentricity'])
-        return {'op': 'o.setter', 'name': 'set_' + kind, 'sig': d.pick(['instance', 'name']),
+        return {'op': 'o.setter', 'name': 'set_' + kind, 'sig': d.pick(['instance', 'name', 'index']),
                 'args': {'value': gen_value(d, kind, n)}}
     if k == 'w.aug':
         name, kind = d.pick([('semi_major_axis', 'semi_major_axis'), ('orbital_frequency', 'orbital_frequency'),
